@@ -122,6 +122,10 @@ CORPUS = [
     dict(fluid="n-Propane", Te=0.0, Tc=4.5, sh=5.0, sc=2.5, eta=0.625, Q=100.0, reqs=["evap", "cond"]),
     dict(fluid="Water", Te=60.0, Tc=62.0, sh=5.0, sc=0.0, eta=0.875, Q=1.0, reqs=["both", "evap"]),
     dict(fluid="CarbonDioxide", Te=-10.0, Tc=-9.5, sh=2.5, sc=0.0, eta=1.0, Q=1.0, reqs=["cond", "both"]),
+    # deterministic witnesses of the open findings (so that their KNOWN-FINDING lines appear on every run)
+    dict(fluid="Water", Te=6.5, Tc=46.5, sh=0.0, sc=5.0, eta=1.0, Q=1.0, reqs=["both"]),                  # D35  saturated-outlet-liquid-root
+    dict(fluid="Propyne", Te=1.25, Tc=7.25, sh=5.0, sc=0.0, eta=0.75, Q=1.0, reqs=["both"]),              # D35b saturated-outlet-vapour-root
+    dict(fluid="n-Hexane", Te=173.625, Tc=233.625, sh=5.0, sc=0.0, eta=0.75, Q=1.0, reqs=["both"]),       # D50  evaporator-inlet-not-two-phase
 ]
 
 
